@@ -86,7 +86,13 @@ def random_history(rng, kind, maxlen, nops):
             inlist.append(i)
         elif u < 0.6:
             i = rng.choice(inlist[1:])
-            rec.setr(i, key(), key())
+            if rng.random() < 0.4:
+                # the characteristic changes only in its last digits (relative 1e-9 .. 3e-6): still another value, the queued entry is stale
+                it = rec.items[i - 1]
+                tw = lambda v: v * (1.0 + rng.choice([1e-9, -1e-7, 1e-6, -3e-6])) if v not in (0.0, float("-inf")) else key()   # noqa: E731
+                rec.setr(i, tw(float(it.globalR)), tw(float(it.localR)))
+            else:
+                rec.setr(i, key(), key())
         elif u < 0.78:
             rec.maxg()
         elif u < 0.86 and kind == "dual":
